@@ -30,6 +30,6 @@ SeqsUpTo(S, n) == IF n = 0 THEN {<< >>}
                   ELSE LET P == SeqsUpTo(S, n - 1) IN P \cup {Append(p, s) : p \in {q \in P : Len(q) = n - 1}, s \in S}
 
 MCInit == \E ss \in SeqsUpTo(Sane, MaxReqs) \ {<< >>}, st \in BOOLEAN, c \in Configs :
-             InitWith(CutLast(Layout(ss, 0), c[3]), [streaming |-> st, idle |-> "inloop", trace |-> c[1], wfail |-> c[2], deny |-> c[4], nokeep |-> c[5]])
+             InitWith(CutLast(Layout(ss, 0), c[3]), [streaming |-> st, idle |-> "inloop", trace |-> c[1], wfail |-> c[2], deny |-> c[4], nokeep |-> c[5], tmo |-> 0])
 MCSpec == MCInit /\ [][Next]_vars
 =============================================================================
